@@ -43,6 +43,9 @@ func (P *Prog) returnValues() map[string][]string {
 				if unstableTermRe.MatchString(t) || len(t) > 600 {
 					continue
 				}
+				if strings.HasPrefix(t, "makeslice(") || strings.HasPrefix(t, "addr:") || strings.Contains(t, "addr:new") {
+					continue // a buffer (its content is in the stores) or an object mutated in place (judged by the rules of its type)
+				}
 				set[fmt.Sprintf("%d=%s", i, t)] = true
 			}
 		}
